@@ -56,7 +56,33 @@ CHECKS = {"C19": ("model_checking", c19)}
 
 
 def replay(pid, rp):
-    print(json.dumps(rp, indent=1)[:4000])
+    """re-execute one recorded case on the current tree and print what the implementation answers next to what the
+    specification expects"""
+    wd = workdir("replay")
+    kind = rp.get("kind")
+    if kind == "codec_case":
+        for case, obs, exp, hang in run_pipeline([rp["case"]], wd, "replay", trace=True):
+            must, asis = compare(case, obs, exp, hang)
+            print("bytes      :", case["bytes"][:200], "..." if len(case["bytes"]) > 200 else "")
+            print("implementation:", json.dumps(obs)[:3000])
+            print("specification :", json.dumps(exp)[:3000])
+            for pids, what in must:
+                print("MUST mismatch", pids, what[:500])
+            for what in asis:
+                print("as-is difference", what[:300])
+            if not must:
+                print("no MUST mismatch on the current tree")
+    elif kind == "attr_case":
+        for case, obs, exp in run_attr_pipeline([rp["case"]], wd, "replay"):
+            print("implementation:", json.dumps(obs)[:3000])
+            print("specification :", json.dumps(exp)[:3000])
+            for pids, what in compare_attr(case, obs, exp)[0]:
+                print("MUST mismatch", pids, what[:500])
+    elif kind == "builder_path":
+        print("operation sequence on a fresh request builder (method 1):", " ".join(rp["path"]))
+        print("re-run: ./check %s  (the builder walk is exhaustive and deterministic; this path is part of it)" % pid)
+    else:
+        print(json.dumps(rp, indent=1)[:4000])
 
 
 def run(pid, tier, seed):
